@@ -4,6 +4,7 @@ package p20
 
 import (
 	"os"
+	"regexp"
 	"strings"
 	"sync"
 
@@ -72,15 +73,42 @@ func (P) Generate(g *core.Gen) {
 
 const parReps = 12
 
-var parPool []string
+var parPool = map[string][]string{}
+
+var bigSeq = regexp.MustCompile(`\*\d{4,}x`)
+
+func parFamily(line string) string {
+	f := strings.Fields(line)
+	if len(f) < 2 {
+		return "other"
+	}
+	switch {
+	case strings.HasPrefix(f[1], "bloom"):
+		return "bloom"
+	case f[1] == "pmt":
+		return "pmt"
+	case f[1] == "bld", f[1] == "cfidx", f[1] == "basic":
+		return f[1]
+	case f[1] == "gcs", f[1] == "from", f[1] == "fromn":
+		return "gcs"
+	}
+	return "other"
+}
 
 func rec(g *core.Gen, class string, nontrivial bool, line string) {
 	g.Case(class, nontrivial, line)
-	if strings.HasPrefix(line, "C20 cfidx") && len(parPool)%5 != 0 {
+	fam := parFamily(line)
+	if fam == "cfidx" && len(parPool[fam]) >= 12 {
 		return // a database per repetition is slow: keep only a few of these in the pool
 	}
+	if bigSeq.MatchString(line) {
+		return // thousands of items: too slow to repeat a hundred times
+	}
+	if fam == "pmt" && len(line) < 60 {
+		return // trees of fewer than ~40 leaves finish too quickly to overlap
+	}
 	if len(line) < 6000 && !strings.Contains(line, " ;; ") {
-		parPool = append(parPool, line)
+		parPool[fam] = append(parPool[fam], line)
 	}
 }
 
@@ -104,7 +132,11 @@ func execPar(line string) string {
 			defer done.Done()
 			start.Wait()
 			first := execOne(subs[i])
-			for k := 1; k < parReps; k++ {
+			reps := parReps
+			if strings.HasPrefix(subs[i], "C20 cfidx") {
+				reps = 2 // one database per repetition
+			}
+			for k := 1; k < reps; k++ {
 				if execOne(subs[i]) != first {
 					first = "unstable"
 					break
@@ -120,16 +152,34 @@ func execPar(line string) string {
 
 func genPar(g *core.Gen) {
 	r := g.R
-	if len(parPool) == 0 {
+	fams := []string{"gcs", "bloom", "pmt", "basic", "bld", "cfidx", "other"}
+	var all []string
+	for _, f := range fams {
+		all = append(all, parPool[f]...)
+	}
+	if len(all) == 0 {
 		return
 	}
-	for i := 0; i < g.N(60, 2000); i++ {
+	for i := 0; i < g.N(70, 2000); i++ {
 		k := 8 + r.Intn(5)
+		pool := all
+		// most lines are homogeneous: instances of ONE component running side by side are what a
+		// package-level buffer, cache or scratch slice would hurt
+		fam := fams[i%len(fams)]
+		if fam == "cfidx" && i >= 3*len(fams) {
+			fam = "pmt" // three lines of concurrent databases are enough
+		}
+		if i%10 != 9 && fam != "other" && len(parPool[fam]) > 0 {
+			pool = parPool[fam]
+			if fam == "cfidx" {
+				k = 8
+			}
+		}
 		subs := make([]string, k)
 		for j := range subs {
-			subs[j] = parPool[r.Intn(len(parPool))]
+			subs[j] = pool[r.Intn(len(pool))]
 		}
 		g.Case("par", true, "C20 par "+strings.Join(subs, " ;; "))
 	}
-	parPool = nil
+	parPool = map[string][]string{}
 }
